@@ -181,9 +181,12 @@ static RunResult run_child(Engine& eng, const Plan& plan, const Opts& opts, bool
 	}
 	if(pid == 0)
 	{
-		int fd = capture ? g_capfd : open("/dev/null", O_WRONLY);
-		dup2(fd, 1);
-		dup2(fd, 2);
+		if(!getenv("SIM_SHOW_OUTPUT"))
+		{
+			int fd = capture ? g_capfd : open("/dev/null", O_WRONLY);
+			dup2(fd, 1);
+			dup2(fd, 2);
+		}
 		alarm((unsigned) opts.timeout_s);
 		Ctx ctx;
 		ctx.sh	 = g_shared;
@@ -258,11 +261,11 @@ static RunResult run_child(Engine& eng, const Plan& plan, const Opts& opts, bool
 			r.v.cls	  = opts.prop + ":terminated-on-valid-request";
 		}
 		r.v.detail = "child ended during op " + std::to_string(r.v.op) + " (" + r.outcome + ")";
-		if(capture)
-			r.tail = read_tail(g_capfd, 1500);
 		// the event hash of an unfinished run is whatever was logged so far; not available -> use op index
 		r.hash = mix64(0x7e57ull + (uint64_t) r.v.op) ^ fnv1a(r.outcome);
 	}
+	if(capture && r.v.any)
+		r.tail = read_tail(g_capfd, 1500);
 	if(copy_out)
 		memcpy(copy_out, g_shared, sizeof(Shared));
 	return r;
